@@ -224,6 +224,7 @@ struct NodeCfg {
     JV thr;     // object or null
     std::vector<std::string> tags;
     std::int64_t stop_at_ord{-1};
+    JV toggle;                 // {"<ordinal>": [[input index, "p"|"a"], ...]}: run-time make_passive() / make_active()
     std::int64_t sleep_us{0};
     std::int64_t mirror_in{-1};
     bool collect{false};          // real-time collecting sink: counts delivered values, stamps the global sequence
@@ -316,6 +317,7 @@ WiringPortRef wire_node(Scope &sc, const JV &st, std::vector<WiringPortRef> ins)
     if (auto *s = st.get("throw")) cfg->thr = *s;
     if (auto *s = st.get("tags")) for (auto &e : s->a) cfg->tags.push_back(e.as_str());
     cfg->stop_at_ord = st.int_or("stop_at_ord", -1);
+    if (auto *tg = st.get("toggle")) cfg->toggle = *tg;
     cfg->sleep_us = st.int_or("sleep_us", 0);
     cfg->mirror_in = st.int_or("mirror", -1);
     cfg->collect = st.bool_or("collect", false);
@@ -439,6 +441,16 @@ WiringPortRef wire_node(Scope &sc, const JV &st, std::vector<WiringPortRef> ins)
             extra("throw"); e += "true"; e += "}]";
             if (g_ctx) g_ctx->add(std::move(e));
             throw std::runtime_error("boom:" + cfg->label + ":eval:" + std::to_string(ord));
+        }
+        if (cfg->toggle.is_obj() && cfg->n_in > 0) {
+            auto in = v.input(t); auto b = in.as_bundle();
+            if (auto *ops = cfg->toggle.get(std::to_string(ord))) for (auto &op : ops->a) {
+                auto c = b[(std::size_t)op.a[0].as_int()];
+                if (op.a[1].as_str() == "p") c.make_passive(); else c.make_active();
+            }
+            extra("act"); e += '[';
+            for (std::size_t i = 0; i < cfg->n_in; ++i) { if (i) e += ','; e += b[i].active() ? "true" : "false"; }
+            e += ']';
         }
         bool emit = cfg->has_out && (cfg->emit == "always" || (cfg->emit == "sched_now" && sched_now) || (cfg->emit == "tick" && any_mod));
         if (emit) {
